@@ -349,6 +349,104 @@ func (w *driveWorld) bigObserve() {
 		}
 		w.calls += 3
 	}
+	// AddProof of two proofs of 300 leaves each (overlapping in 50): the canonical proof of the union
+	if len(lv) >= 700 {
+		sh := append([]int{}, lv...)
+		w.rng.Shuffle(len(sh), func(a, b int) { sh[a], sh[b] = sh[b], sh[a] })
+		A, B := append([]int{}, sh[:300]...), append([]int{}, sh[250:550]...)
+		sort.Ints(A)
+		sort.Ints(B)
+		ha, hb := w.hashes(A), w.hashes(B)
+		pa, ea := pol.P.Prove(ha)
+		pb, eb := pol.P.Prove(hb)
+		if ea != nil || eb != nil {
+			w.fail([]string{"C02"}, "pollard", "prove.error", fmt.Sprintf("Prove of 300 live leaves failed: %v %v", ea, eb))
+			return
+		}
+		var uh []Hash
+		var up utreexo.Proof
+		if pan := protect(func() { uh, up = utreexo.AddProof(pa, pb, ha, hb, w.n) }); pan != "" {
+			w.fail([]string{"C14"}, "proofops", "panic", "AddProof of two proofs of 300 leaves panicked: "+pan)
+			return
+		}
+		ref, er := pol.P.Prove(uh)
+		ok := er == nil && len(uh) == len(up.Targets) && len(uh) == 550 && len(ref.Proof) == len(up.Proof)
+		if ok {
+			for i := range ref.Proof {
+				ok = ok && ref.Proof[i] == up.Proof[i]
+			}
+			ok = ok && eqU64s(ref.Targets, up.Targets)
+		}
+		if !ok {
+			w.fail([]string{"C14"}, "proofops", "addproof", fmt.Sprintf("AddProof of two proofs of 300 leaves (50 in common, %d leaves in the forest): %d hashes / %d targets / %d proof hashes, the prover gives %d proof hashes for the union (err %v)", w.n, len(uh), len(up.Targets), len(up.Proof), len(ref.Proof), er))
+			return
+		}
+		if _, err := utreexo.Verify(w.stump, uh, up); err != nil {
+			w.fail([]string{"C14"}, "proofops", "addproof.verify", "the result of AddProof of two proofs of 300 leaves does not verify: "+err.Error())
+			return
+		}
+		w.calls += 4
+	}
+	// the stand-alone GetMissingPositions from several goroutines at once, each with its own proof of
+	// more than a thousand targets: every answer is the one the same call gives alone
+	if len(lv) >= 3000 {
+		type job struct {
+			held []uint64
+			des  []uint64
+			want []uint64
+		}
+		var jobs []job
+		for g := 0; g < 6; g++ {
+			sh := append([]int{}, lv...)
+			w.rng.Shuffle(len(sh), func(a, b int) { sh[a], sh[b] = sh[b], sh[a] })
+			hs := sh[:1100+g*37]
+			sort.Ints(hs)
+			pr, err := pol.P.Prove(w.hashes(hs))
+			if err != nil {
+				return
+			}
+			var des []uint64
+			for _, s := range sh[2000 : 2003+g] {
+				p, _ := pol.P.GetLeafPosition(w.sy.H(leafTerm(s)))
+				des = append(des, p)
+			}
+			sort.Slice(des, func(a, b int) bool { return des[a] < des[b] })
+			j := job{held: pr.Targets, des: des}
+			j.want = sortedU64(utreexo.GetMissingPositions(w.n, append([]uint64{}, j.held...), append([]uint64{}, j.des...)))
+			jobs = append(jobs, j)
+		}
+		bad := make(chan string, len(jobs))
+		done := make(chan struct{}, len(jobs))
+		n := w.n
+		for _, j := range jobs {
+			j := j
+			go func() {
+				defer func() {
+					if r := recover(); r != nil {
+						bad <- fmt.Sprint("panic: ", r)
+					}
+					done <- struct{}{}
+				}()
+				for rep := 0; rep < 40; rep++ {
+					got := sortedU64(utreexo.GetMissingPositions(n, append([]uint64{}, j.held...), append([]uint64{}, j.des...)))
+					if !eqU64s(got, j.want) {
+						bad <- fmt.Sprintf("GetMissingPositions for a proof of %d targets and %d wanted positions, called while other goroutines call it for other proofs, returned %d positions; alone it returns %d", len(j.held), len(j.des), len(got), len(j.want))
+						return
+					}
+				}
+			}()
+		}
+		for range jobs {
+			<-done
+		}
+		select {
+		case msg := <-bad:
+			w.fail([]string{"C14"}, "proofops", "missing.concurrent", msg)
+			return
+		default:
+		}
+		w.calls += 6 * 40
+	}
 	// serialization round trip of the partial forest (hundreds of remembered leaves, thousands of nodes)
 	var buf bytes.Buffer
 	if _, err := mp.M.Write(&buf); err != nil {
